@@ -243,7 +243,7 @@ Proof.
   destruct k as [t|e|c|t]; destruct x as [p|fields|tg y]; try discriminate; cbn [etag tyc].
   - destruct (ptype_eqb (ptype_of p) t && negb (ptype_eqb t PEnum)); [|discriminate]. apply enc_prim_starts.
   - destruct p; try discriminate. apply enc_prim_starts.
-  - destruct (find_cls E c) as [k|]; [|discriminate].
+  - destruct (find_cls E c) as [k|]; [|discriminate]. destruct (v <? c_minver k); [discriminate|].
     destruct (wr_items _ _ _ _) as [body|]; [|discriminate]. apply with_hdr_starts.
   - destruct (find_row E v t tg) as [k'|]; [|discriminate].
     destruct (is_tagged k') eqn:Ek; [discriminate|]. intros H. apply IH in H as [r ->].
@@ -619,6 +619,7 @@ Proof.
   - (* structure *)
     destruct (find_cls E c) as [k|] eqn:Ec; [|discriminate].
     destruct (cls_facts c k Hv Ec) as (Hrw & Hdj & Hio & Hnp & Htl).
+    destruct (v <? c_minver k) eqn:Emv; [discriminate|]. cbn [negb andb] in Hwf.
     destruct (wr_items (wr E v f) [] (filter (active v) (c_wr k)) fields) as [body|] eqn:Eb; [|discriminate].
     apply with_hdr_some in Hw as (h & Hh & ->).
     rewrite <- app_assoc.
@@ -724,6 +725,7 @@ Proof.
     apply (enc_some_iff_wf (enum_mem E e) tag (VEnum n)); [exact I|exact Hwf|eauto].
   - destruct (find_cls E c) as [k|] eqn:Ec; [|discriminate].
     destruct (cls_facts c k Hv Ec) as (Hrw & _ & Hio & _). rewrite Hrw in Hio.
+    destruct (v <? c_minver k) eqn:Emv; [discriminate|]. cbn [negb andb] in Hwf.
     destruct (wr_items _ _ _ _) as [body|] eqn:Eb; [|discriminate].
     destruct (items_children (wr E v f) (wfv E v f) _ _ _ _ IH Hio Hwf Eb) as (children & -> & Hch).
     apply with_hdr_some in Hw as (h & Hh & ->). apply hdr_spec in Hh as [-> Hr].
@@ -936,6 +938,7 @@ Proof.
     split; [exact Hm|]. split; [exact Henc|]. split; [lia|exact Htb].
   - destruct (find_cls E c) as [k|] eqn:Ec; [|discriminate].
     destruct (cls_facts c k Hv Ec) as (Hrw & _ & Hio & _).
+    destruct (v <? c_minver k) eqn:Emv; [discriminate|].
     destruct (dec_hdr tag STRUCT_CODE bs) as [[len r]|] eqn:Eh; [|discriminate].
     pose proof (dec_hdr_type_byte tag STRUCT_CODE bs len r ltac:(unfold STRUCT_CODE; lia) Eh) as Htb.
     destruct (dec_hdr_spec _ _ _ _ _ Eh Hok) as (h & -> & Lh & Hlen & Hr).
@@ -956,7 +959,7 @@ Proof.
       destruct Hhdr as [hb Hhb].
       exists (hb ++ body). split; [exact Heq|].
       split; [rewrite zlen_app; pose proof (zlen_nonneg sub); lia|].
-      cbn [wr wfv]. rewrite Ec. rewrite <- Hrw.
+      cbn [wr wfv]. rewrite Ec, Emv. cbn [negb andb]. rewrite <- Hrw.
       split; [exact Hwff|]. rewrite Hbody. unfold with_hdr. rewrite Hhb.
       split; [reflexivity|].
       assert (zlen hb = 8).
